@@ -81,6 +81,19 @@ impl World {
             _ => None,
         }
     }
+    /// the files read when analysing `items` (transitively)
+    fn reached(&self, items: &[Item], depth: u32, acc: &mut Vec<(u32, u32)>) {
+        for it in items {
+            if let Some(t) = self.resolve(it).filter(|t| self.present.contains(t)) {
+                if !acc.contains(&t) {
+                    acc.push(t);
+                    if depth < 8 {
+                        self.reached(&self.content[&t], depth + 1, acc);
+                    }
+                }
+            }
+        }
+    }
     fn text_of(&self, items: &[Item], inline: bool, depth: u32) -> String {
         let mut s = String::new();
         for it in items {
@@ -261,8 +274,28 @@ pub fn run(args: &[String]) {
         }
         std::fs::create_dir_all(world.dir(CWD)).unwrap();
         std::env::set_current_dir(world.dir(CWD)).unwrap();
+        // one file in five worlds is broken: a syntax error or a lexical error somewhere in it (C11: the
+        // whole analysis is gated if it is read, at whatever include depth)
+        let broken: Option<((u32, u32), &str)> = if !present.is_empty() && rng.below(5) == 0 {
+            let mut keys: Vec<(u32, u32)> = content.keys().cloned().collect();
+            keys.sort();
+            let k = keys[rng.below(keys.len() as u64) as usize];
+            Some((k, ["int bad_decl = ;\n", "int lex_bad = 0x;\n", "gate (\n", "x = \"unterminated;\n"][rng.below(4) as usize]))
+        } else {
+            None
+        };
         for (&(d, f), items) in &content {
-            std::fs::write(world.path(d, f), world.text_of(items, false, 0)).unwrap();
+            let mut t = world.text_of(items, false, 0);
+            if let Some((k, line)) = broken {
+                if k == (d, f) {
+                    if rng.below(2) == 0 {
+                        t.push_str(line);
+                    } else {
+                        t = format!("{line}{t}");
+                    }
+                }
+            }
+            std::fs::write(world.path(d, f), t).unwrap();
         }
         let text = world.text_of(&main, false, 0);
         let inlined = world.text_of(&main, true, 0);
@@ -357,6 +390,25 @@ pub fn run(args: &[String]) {
         let mut keys: Vec<&(u32, u32)> = content.keys().collect();
         keys.sort();
         let cont_s = if keys.is_empty() { "-".to_string() } else { keys.iter().map(|k| format!("{}:{}={}", k.0, k.1, enc_items(&content[k]))).collect::<Vec<_>>().join(";") };
+        if let Some((k, line)) = broken {
+            let mut acc = Vec::new();
+            world.reached(&main, 0, &mut acc);
+            if acc.contains(&k) {
+                let what = format!("{} (read at include depth >= 1) contains `{}`", world.path(k.0, k.1).display(), line.trim());
+                let verdict = if let Some(p) = &o.panic {
+                    format!("FAIL C11,C18,C03: panic although the only defect is a syntax error in an included file: {} ;; {what} ;; {}", &p[..p.len().min(100)], text.replace('\n', "\\n"))
+                } else if !o.any_syntax || !o.stmts.is_empty() || !o.errors.is_empty() {
+                    format!("FAIL C11,C18: an included file has a syntax diagnostic but the analysis ran (any_syntax_errors={}, {} statements, {} semantic diagnostics) ;; {what} ;; {}", o.any_syntax, o.stmts.len(), o.errors.len(), text.replace('\n', "\\n"))
+                } else if let Some(v) = &entry_verdict {
+                    v.clone()
+                } else {
+                    "ok".to_string()
+                };
+                writeln!(w, "inc\t-\tS:-|E:-\t-\t-\t|\t{verdict}").unwrap();
+                let _ = std::fs::remove_dir_all(&root);
+                continue;
+            }
+        }
         let head = format!("inc\t{fs_s}\t{mode_s}\t{cont_s}\t{}", enc_items(&main));
         if let Some(p) = &o.panic {
             writeln!(w, "{head}\tPANIC\tFAIL C18,C03: analysis of a program with includes panicked: {} ;; {}", &p[..p.len().min(100)], text.replace('\n', "\\n")).unwrap();
@@ -411,6 +463,10 @@ pub fn run(args: &[String]) {
         }
         if o.scope_depth != 1 {
             oracle = format!("FAIL C03: {} scopes open after analysis", o.scope_depth);
+        }
+        // the span of every semantic diagnostic is a node range of the file it is tagged with (C12)
+        if let (false, Some(v)) = (oracle.starts_with("FAIL"), sem_range_violation(&text, &o)) {
+            oracle = v;
         }
         if let (false, Some(v)) = (oracle.starts_with("FAIL"), entry_verdict) {
             oracle = v;
